@@ -111,8 +111,11 @@ def boolv(v):
     return z3.BoolVal(bool(v))
 
 
+_ZERO = (0, 1, 'i')
+
+
 class Obj:
-    __slots__ = ('size', 'data', 'shared', 'name', 'freed', 'ro')
+    __slots__ = ('size', 'data', 'shared', 'name', 'freed', 'ro', 'zfill')
 
     def __init__(self, size, name):
         self.size = size
@@ -121,12 +124,14 @@ class Obj:
         self.name = name
         self.freed = False
         self.ro = False
+        self.zfill = False  # bytes never written read as zero (calloc)
 
     def copy(self):
         o = Obj(self.size, self.name)
         o.data = dict(self.data)
         o.freed = self.freed
         o.ro = self.ro
+        o.zfill = self.zfill
         return o
 
 
@@ -248,6 +253,8 @@ class Executor:
         for name, (ty, init, const) in self.m.globals.items():
             if init is not None:
                 self._store_const(st, self.gaddr[name], ty, init)
+            elif name in ('@stderr', '@stdout', '@stdin'):
+                st.objs[self.gaddr[name] >> SH].zfill = True
             if const:
                 st.objs[self.gaddr[name] >> SH].ro = True
 
@@ -419,9 +426,28 @@ class Executor:
             o = st.wobj(k)
         return o, off
 
+    @staticmethod
+    def init_runs(o, n):
+        """Maximal runs [a,b) of initialised bytes of o that can hold an n-byte access."""
+        if o.zfill:
+            return [(0, o.size)]
+        runs = []
+        a = b = None
+        for off in sorted(o.data):
+            if b is not None and off == b:
+                b += 1
+            else:
+                if b is not None and b - a >= n:
+                    runs.append((a, b))
+                a, b = off, off + 1
+        if b is not None and b - a >= n:
+            runs.append((a, b))
+        return runs
+
     def sym_addr_candidates(self, st, addr, n, write):
-        """For a symbolic address: returns list of concrete addrs (initialised, aligned candidates)
-        after proving that the address cannot fall elsewhere."""
+        """For a symbolic address: proves that it stays inside the (initialised part of the) one object the
+        current model points into, reporting a finding and constraining the path otherwise.  Returns the list
+        of aligned candidate addresses when that list is short, else None (callers then enumerate by solver)."""
         addr = z3.simplify(addr)
         if z3.is_bv_value(addr):
             return [addr.as_long()]
@@ -433,14 +459,11 @@ class Executor:
         if o is None or o.freed:
             raise Finding('mem', 'symbolic pointer may be invalid: %#x' % a0)
         base = k << SH
-        if write:
-            cands = [base + off for off in range(0, o.size - n + 1, n)]
-            if len(cands) > self.max_ite:
-                cands = [base + off for off in sorted(o.data) if o.data[off][1] == 0 and off % n == 0]
-        else:
-            cands = [base + off for off in range(0, o.size - n + 1, n) if all((off + i) in o.data for i in range(n))]
-        cands = cands[: 4 * self.max_ite]
-        outside = z3.And([addr != c for c in cands]) if cands else z3.BoolVal(True)
+        runs = [(0, o.size)] if write else self.init_runs(o, n)
+        runs = [(a, b) for a, b in runs if b - a >= n]
+        B = lambda x: z3.BitVecVal(base + x, 64)
+        valid = z3.Or([z3.And(z3.UGE(addr, B(a)), z3.ULE(addr, B(b - n))) for a, b in runs]) if runs else z3.BoolVal(False)
+        outside = z3.Not(valid)
         mdl = self.check(st, outside)
         if mdl is not None:
             a1 = mdl.eval(addr, model_completion=True).as_long()
@@ -451,12 +474,11 @@ class Executor:
             if not (o1 is None or o1.freed or off1 + n > o1.size):
                 # the model points at never-written bytes inside an object; prefer a model that leaves the object
                 # altogether (visible to ASan) when one exists
-                oob = z3.Or(z3.ULT(addr, z3.BitVecVal(base, 64)), z3.UGT(addr, z3.BitVecVal(base + o.size - n, 64)))
+                oob = z3.Or(z3.ULT(addr, B(0)), z3.UGT(addr, B(o.size - n)))
                 m3 = self.check(st, oob)
                 if m3 is not None:
                     mdl = m3
                     s2.pc.append(oob)
-                    o1 = None
                     a1 = m3.eval(addr, model_completion=True).as_long()
                     o1 = st.objs.get(a1 >> SH)
                     off1 = a1 & OFFMASK
@@ -466,16 +488,19 @@ class Executor:
                 self.report(s2, 'mem', 'out-of-bounds symbolic %s in %s (obj %s size %s)' % (
                     'write' if write else 'read', self.where(st), o1.name if o1 else None, o1.size if o1 else None), mdl)
             else:
-                self.report(s2, 'uninit', 'symbolic %s in %s may touch uninitialised/misaligned offset of %s' % (
+                self.report(s2, 'uninit', 'symbolic %s in %s may touch uninitialised bytes of %s' % (
                     'write' if write else 'read', self.where(st), o1.name), mdl)
             # continue under the complementary (access is valid) constraint
-            if not cands:
+            if not runs:
                 raise PathEnd('memfinding')
-            st.pc.append(z3.Or([addr == c for c in cands]))
+            st.pc.append(valid)
             st.model = self.check(st)
             if st.model is None:
                 raise PathEnd('memfinding')
-        return cands
+        total = sum((b - n - a) // n + 1 for a, b in runs)
+        if total > 4 * self.max_ite:
+            return None
+        return [base + off for a, b in runs for off in range(a, b - n + 1, n)]
 
     def _split(self, o, off):
         """Break the value covering byte `off` into independent bytes."""
@@ -551,6 +576,9 @@ class Executor:
         for i in range(n):
             e = d.get(off + i)
             if e is None:
+                if o.zfill:
+                    bs.append(0)
+                    continue
                 raise Finding('uninit', 'read of uninitialised byte %d of %s' % (off + i, o.name))
             val, nb, k2 = e[0]
             if nb == 1 and k2 == 'i':
@@ -576,6 +604,8 @@ class Executor:
         kind, n = self.kind_of(ty)
         if is_sym(addr):
             cands = self.sym_addr_candidates(st, addr, n, False)
+            if cands is None:
+                raise Finding('limit', 'symbolic address with too many candidate cells')
             if len(cands) == 1:
                 v = self.load_c(st, cands[0], n, kind)
             else:
@@ -600,6 +630,8 @@ class Executor:
             v = bv(v, 8)
         if is_sym(addr):
             cands = self.sym_addr_candidates(st, addr, n, True)
+            if cands is None:
+                raise Finding('limit', 'symbolic address with too many candidate cells')
             if len(cands) == 1:
                 self.store_c(st, cands[0], n, kind, v)
                 return
@@ -673,15 +705,26 @@ class Executor:
         if not is_sym(addr):
             addr = int(addr)
         kind, n = self.kind_of(ins.ty)
+        cands = ()
         if is_sym(addr):
             cands = self.sym_addr_candidates(st, addr, n, stored is not None)
-        if not is_sym(addr) or len(cands) > self.FORK_ADDR_LIMIT or self.no_addr_fork:
+        if not is_sym(addr) or self.no_addr_fork:
             if stored is None:
                 st.frames[-1].regs[ins.dst] = self.load(st, addr, ins.ty)
             else:
                 self.store(st, addr, ins.ty, stored[0])
             return None
-        pairs = self.fork_values(st, addr, 'address', limit=self.FORK_ADDR_LIMIT + 1)
+        try:
+            pairs = self.fork_values(st, addr, 'address', limit=self.FORK_ADDR_LIMIT + 1)
+        except Finding as f:
+            if f.kind != 'limit' or cands is None:
+                raise
+            # too many feasible addresses: ite over the aligned cells instead
+            if stored is None:
+                st.frames[-1].regs[ins.dst] = self.load(st, addr, ins.ty)
+            else:
+                self.store(st, addr, ins.ty, stored[0])
+            return None
         out = []
         for s2, av in pairs:
             try:
@@ -706,14 +749,14 @@ class Executor:
             raise PathEnd('pruned')
         return out
 
-    def fork_call(self, st, ins, args, idxs, body):
+    def fork_call(self, st, ins, args, idxs, body, limit=64):
         """Concretise args[i] for i in idxs by forking, then run body(state, args) in every successor.
         Returns the list of successor states (result register set)."""
         combos = [(st, list(args))]
         for i in idxs:
             nxt = []
             for s_, a_ in combos:
-                for s2, val in self.fork_values(s_, a_[i], 'argument %d of %s' % (i, ins.a[1] if ins.a[0] == 'g' else '?')):
+                for s2, val in self.fork_values(s_, a_[i], 'argument %d of %s' % (i, ins.a[1] if ins.a[0] == 'g' else '?'), limit):
                     a2 = list(a_)
                     a2[i] = val
                     nxt.append((s2, a2))
@@ -733,6 +776,9 @@ class Executor:
                 self.report(s2, f.kind, f.msg, mdl)
                 if f.kind in ('limit', 'unknown'):
                     self.stats['inconclusive'] = self.stats.get('inconclusive', 0) + 1
+                continue
+            if isinstance(r, list):
+                out.extend(r)
                 continue
             if ins.dst is not None:
                 s2.frames[-1].regs[ins.dst] = r
@@ -760,9 +806,13 @@ class Executor:
         e = d.get(doff + n - 1)
         if e is not None and e[1] < e[0][1] - 1:
             self._split(do, doff + n - 1)
+        zsrc = so.zfill
         for i, e in enumerate(entries):
             if e is None:
-                d.pop(doff + i, None)
+                if zsrc:
+                    d[doff + i] = (_ZERO, 0)
+                else:
+                    d.pop(doff + i, None)
             else:
                 d[doff + i] = e
 
@@ -1465,25 +1515,35 @@ def _alloc_fails(st):
     return st.nalloc == st.fail_at
 
 
-def x_malloc(ex, st, fr, ins, args):
-    n = _conc_size(ex, st, args[0], 'malloc')
+def _forked(fn, idxs):
+    """Wrap an extern so that symbolic arguments at idxs are concretised by forking over their feasible values."""
+    def h(ex, st, fr, ins, args):
+        sy = [i for i in idxs if is_sym(args[i])]
+        if sy:
+            return ex.fork_call(st, ins, args, sy, lambda s2, a: fn(ex, s2, s2.frames[-1], ins, a), limit=300)
+        return fn(ex, st, fr, ins, args)
+    return h
+
+
+def _x_malloc(ex, st, fr, ins, args):
+    n = args[0]
     if n > (1 << 28) or _alloc_fails(st):
         return 0
     return st.alloc(n, 'malloc@%s' % fr.fn.name)
 
 
-def x_calloc(ex, st, fr, ins, args):
-    n = _conc_size(ex, st, args[0], 'calloc') * _conc_size(ex, st, args[1], 'calloc')
+def _x_calloc(ex, st, fr, ins, args):
+    n = args[0] * args[1]
     if n > (1 << 28) or _alloc_fails(st):
         return 0
     a = st.alloc(n, 'calloc@%s' % fr.fn.name)
-    ex.mem_set(st, a, 0, n)
+    st.objs[a >> SH].zfill = True
     return a
 
 
-def x_realloc(ex, st, fr, ins, args):
+def _x_realloc(ex, st, fr, ins, args):
     p = args[0]
-    n = _conc_size(ex, st, args[1], 'realloc')
+    n = args[1]
     if n > (1 << 28) or _alloc_fails(st):
         return 0
     a = st.alloc(n, 'realloc@%s' % fr.fn.name)
@@ -1494,6 +1554,11 @@ def x_realloc(ex, st, fr, ins, args):
         ex.mem_copy_partial(st, a, p, min(n, o.size))
         st.wobj(p >> SH).freed = True
     return a
+
+
+x_malloc = _forked(_x_malloc, [0])
+x_calloc = _forked(_x_calloc, [0, 1])
+x_realloc = _forked(_x_realloc, [0, 1])
 
 
 def _mem_copy_partial(self, st, dst, src, n):
@@ -1507,7 +1572,7 @@ def _mem_copy_partial(self, st, dst, src, n):
 Executor.mem_copy_partial = _mem_copy_partial
 
 
-def x_free(ex, st, fr, ins, args):
+def _x_free(ex, st, fr, ins, args):
     p = args[0]
     if is_sym(p):
         raise Finding('limit', 'symbolic free')
@@ -1521,6 +1586,9 @@ def x_free(ex, st, fr, ins, args):
         raise Finding('mem', 'double free of ' + o.name)
     st.wobj(k).freed = True
     return None
+
+
+x_free = _forked(_x_free, [0])
 
 
 def x_memcpy(ex, st, fr, ins, args):
@@ -1773,7 +1841,7 @@ def x_sym_i8(ex, st, fr, ins, args):
     name = ex.cstring(st, args[0])
     v = z3.BitVec(name, 8)
     st.syms[name] = (v, 'i')
-    return v
+    return z3.SignExt(24, v)
 
 
 def x_file_new(ex, st, fr, ins, args):
@@ -1799,6 +1867,22 @@ def x_file_set_len(ex, st, fr, ins, args):
 
 def x_file_len(ex, st, fr, ins, args):
     return _files(st)[args[0]]['len']
+
+
+def x_file_poke(ex, st, fr, ins, args):
+    """sym_file_poke(f, pos, byte): overwrite one byte of the file image."""
+    f = _files(st)[args[0]]
+    pos = args[1]
+    if is_sym(pos):
+        raise Finding('limit', 'symbolic poke position')
+    ex.store_c(st, f['buf'] + pos, 1, 'i', args[2] if not is_sym(args[2]) else z3.Extract(7, 0, bv(args[2], 32)))
+    return None
+
+
+def x_file_peek(ex, st, fr, ins, args):
+    f = _files(st)[args[0]]
+    v = ex.load_c(st, f['buf'] + args[1], 1, 'i')
+    return z3.ZeroExt(24, v) if is_sym(v) else v
 
 
 def x_fwrite(ex, st, fr, ins, args):
@@ -1893,7 +1977,7 @@ EXTERNS = {
     '@sym_i32': x_sym_i32, '@sym_i8': x_sym_i8, '@sym_fail_alloc_at': x_fail_alloc_at, '@sym_readonly': x_sym_readonly, '@sym_i64': x_sym_i64, '@sym_f64': x_sym_f64, '@sym_f64_int': x_sym_f64_int,
     '@sym_assume': x_sym_assume, '@sym_choice': x_sym_choice, '@sym_assert': x_sym_assert, '@sym_reach': x_sym_reach,
     '@llvm.fabs.f64': x_fabs, '@tsk_generate_uuid': x_uuid, '@sym_file_new': x_file_new, '@sym_file_rewind': x_file_rewind,
-    '@sym_file_set_len': x_file_set_len, '@sym_file_len': x_file_len, '@fwrite': x_fwrite, '@fread': x_fread,
+    '@sym_file_set_len': x_file_set_len, '@sym_file_len': x_file_len, '@sym_file_poke': x_file_poke, '@sym_file_peek': x_file_peek, '@fwrite': _forked(x_fwrite, [1, 2]), '@fread': _forked(x_fread, [1, 2]),
     '@ftell': x_ftell, '@fseek': x_fseek, '@feof': x_feof, '@ferror': x_noop0, '@fclose': x_noop0,
     '@fflush': x_noop0, '@clearerr': x_noop0, '@sqrt': x_sqrt, '@llvm.trunc.f64': _mk_round(z3.RTZ(), math.trunc),
     '@llvm.floor.f64': _mk_round(z3.RTN(), math.floor), '@llvm.ceil.f64': _mk_round(z3.RTP(), math.ceil),
